@@ -67,6 +67,21 @@ func workerMain(args []string) int {
 	// watchdog: a library call (or a library goroutine the harness waits for) that computes forever
 	go spinWatchdog(r, j, resPath)
 	p.Run(c)
+	if b.Yield {
+		if !rig.YieldBuild {
+			r.Inconclusive = append(r.Inconclusive, "a perturbed batch was handed to a binary built against the unperturbed library")
+		}
+		for k, v := range rig.YieldStats() {
+			if k == "yield_sites" || k == "yield_sites_reached" || k == "yield_sites_fired" {
+				r.Max("max_"+k, v)
+			} else {
+				r.Count(k, v)
+			}
+		}
+		if rig.YieldBuild && rig.YieldStats()["yield_fired"] == 0 {
+			r.Inconclusive = append(r.Inconclusive, "no yield point fired in a perturbed batch")
+		}
+	}
 	r.Done = true
 	if *resPath != "" {
 		if err := r.Write(*resPath); err != nil {
